@@ -541,5 +541,30 @@ def run(chk, prog):
         chk.check(outside, "R8", A.loc(rd, {"line": dd[0]["line"]}), "readData: before the first line the 'previous line number' %s is %s: no harmonic number of a table, "
                   "so the first line is always kept" % (prev[0]["name"], txt[:50]), "readData:sentinel:%s" % txt[:40])
     chk.floor("R8-dedup-conditions", n8 + (1 if not conds8 else 0), 1)
+    # ---- R9: no floating-point quantity of an impedance formula goes through an integer function ------------------------------------------------------
+    # `abs(x)` without std:: resolves to the C function int abs(int): a ratio such as b/a is truncated to a whole number before the logarithm
+    # (type-checked AST: an argument of abs/labs/llabs, or of any function taking an integer, that is a float->integer conversion of an
+    # expression of the formula; loop bounds and sample counts are assignments, not arguments, and are not matched)
+    n9 = 0
+    for fq in prog.functions.values():
+        if "/Z/" not in (fq.get("file") or "").replace("\\", "/"):
+            continue
+        roots9 = ([fq["body"]] if fq.get("body") else []) + [i_["expr"] for i_ in fq.get("inits", []) if isinstance(i_.get("expr"), dict)]
+        for r_ in roots9:
+            for x in A.walk(r_):
+                if x.get("k") != "CallExpr":
+                    continue
+                n9 += 1
+                for a_ in x.get("args", []):
+                    top = a_
+                    while isinstance(top, dict) and top.get("k") in ("ParenExpr", "ExprWithCleanups", "MaterializeTemporaryExpr") and top.get("c"):
+                        top = top["c"][0]
+                    if isinstance(top, dict) and top.get("cast") == "FloatingToIntegral":
+                        chk.used(fq)
+                        chk.check(False, "R9", A.loc(fq, x), "%s: the floating-point value `%s` is converted to %s to be passed to %s(): the formula continues with a whole number"
+                                  % (fq["qname"].replace("vfps::", ""), A.show(top["c"][0])[:40] if top.get("c") else "?", top.get("ctype"), (x.get("callee") or "?")),
+                                  "float-through-integer-function:%s:%s" % (fq["qname"].replace("vfps::", ""), (x.get("callee") or "?").split("::")[-1]))
+    chk.floor("R9-calls-in-impedance-code", n9, 30)
+    chk.ok("R9", "src/Z", "%d calls in the impedance sources examined: no argument is a float->integer conversion" % n9)
     chk.notes.append("C16: sample counts and zero upper half by a symbolic model of the vector operations, passivity and side by a sign lattice over "
                      "real/imaginary parts, homogeneity exponents, factory pairing. NOT decided: asymptotic limits of the parallel-plates model.")
